@@ -971,3 +971,74 @@ fn c16_small_capacity() {
   kani::cover!(prefix == cap, "prefix exactly fills the capacity");
   kani::cover!(prefix == cap + 1, "one byte short");
 }
+
+// C13: an owned *aligned* byte handle (buffer extent != accessible range) releases exactly its buffer extent
+pub(crate) fn c13_owned_aligned<A: Allocator>(fl: Freelist, owned: bool) {
+  const CAP: usize = 96;
+  let l = lay(0, CAP as u32);
+  let a: A = mk::<A>(fl, 1, &l, 8);
+  let b: A = mk::<A>(fl, 1, &l, 8);
+  let n1: u32 = kani::any();
+  let n2: u32 = kani::any();
+  let top: bool = kani::any();
+  kani::assume(n1 >= 1 && n1 <= 9 && n2 <= 16);
+  {
+    let mut x = a.alloc_bytes(n1).unwrap();
+    unsafe { x.detach() };
+    core::mem::forget(x);
+    let mut y = b.alloc_bytes(n1).unwrap();
+    unsafe { y.detach() };
+    core::mem::forget(y);
+  }
+  let refs0 = a.refs();
+  let eb;
+  {
+    let mut ha = a.alloc_aligned_bytes::<u64>(n2).unwrap();
+    let mut hb = b.alloc_aligned_bytes::<u64>(n2).unwrap();
+    eb = (hb.buffer_offset() as u32, hb.buffer_capacity() as u32);
+    assert!(ha.buffer_offset() == hb.buffer_offset() && ha.buffer_capacity() == hb.buffer_capacity(), "ENC: twin arenas agree");
+    assert!(ha.offset() % 8 == 0 && ha.capacity() >= 8 + n2 as usize, "C03: aligned bytes handle");
+    unsafe { hb.detach() };
+    core::mem::forget(hb);
+    if !top {
+      let mut x = a.alloc_bytes(5).unwrap();
+      unsafe { x.detach() };
+      core::mem::forget(x);
+      let mut y = b.alloc_bytes(5).unwrap();
+      unsafe { y.detach() };
+      core::mem::forget(y);
+    }
+    if owned {
+      let o = ha.to_owned();
+      drop(ha);
+      assert!(a.refs() == refs0 + 1, "C13: an owned handle holds one arena reference");
+      drop(o);
+      assert!(a.refs() == refs0, "C13: dropping the owned handle gives its arena reference back");
+    } else {
+      drop(ha);
+    }
+  }
+  unsafe { b.dealloc(eb.0, eb.1) };
+  assert!(a.allocated() == b.allocated(), "C13: an aligned handle releases exactly its buffer extent, padding included (cursor)");
+  assert!(a.discarded() == b.discarded(), "C13: an aligned handle releases exactly its buffer extent, padding included (discarded)");
+  let x: u32 = kani::any();
+  kani::assume(x < CAP as u32);
+  kani::assume(x < l.hdr + 20 || x >= l.hdr + 24);
+  assert!(unsafe { rd8(a.raw_ptr(), x) == rd8(b.raw_ptr(), x) }, "C13: an aligned handle releases exactly its buffer extent, padding included (free list and memory image)");
+  kani::cover!(eb.0 % 8 != 0 && top, "padded handle released from the top");
+  kani::cover!(eb.0 % 8 != 0 && !top, "padded handle released from the middle");
+  core::mem::forget(a);
+  core::mem::forget(b);
+}
+// @h props=C13 tier=quick timeout=1800 bounds=CAP=96,T=u64,n1<=9,n2<=16,owned
+#[kani::proof]
+#[kani::unwind(4)]
+fn c13_owned_aligned_unsync_opt() {
+  c13_owned_aligned::<unsync::Arena>(Freelist::Optimistic, true);
+}
+// @h props=C13 tier=thorough timeout=1800 bounds=CAP=96,T=u64,n1<=9,n2<=16,borrowed,retries=1
+#[kani::proof]
+#[kani::unwind(4)]
+fn c13_borrowed_aligned_sync_pess() {
+  c13_owned_aligned::<sync::Arena>(Freelist::Pessimistic, false);
+}
